@@ -20,6 +20,9 @@ type dbAccess struct {
 	Site  *core.Site
 	Write bool
 	Key   string // constant key ("" when dynamic)
+	// Raw: the db.Get / db.Set itself when the access is attributed to a caller of the helper
+	// that contains it (nil otherwise)
+	Raw *core.Site
 }
 
 // appDBFacts collects, for every method of *appdb.AppDB, the store accesses.
@@ -77,7 +80,7 @@ func loadAppDB(c *core.Ctx) *appDBFacts {
 				// one access per call of the helper, with the key passed there, attributed to the
 				// caller — followed upwards while the caller itself only hands its own parameter on
 				if pi := paramIndexOf(root, s.Arg(0)); pi >= 0 {
-					if f.attribute(c, root, pi, name != "Get", 0) {
+					if f.attribute(c, root, pi, name != "Get", 0, s) {
 						continue
 					}
 				}
@@ -91,7 +94,7 @@ func loadAppDB(c *core.Ctx) *appDBFacts {
 // attribute records one access per call site that passes a constant key for parameter pi of the
 // key-taking helper h (receiver included in the index); a caller that passes one of its own
 // parameters is itself treated as such a helper.
-func (f *appDBFacts) attribute(c *core.Ctx, h *ssa.Function, pi int, write bool, depth int) bool {
+func (f *appDBFacts) attribute(c *core.Ctx, h *ssa.Function, pi int, write bool, depth int, raw *core.Site) bool {
 	found := false
 	for _, cl := range c.SrcFuncs(pkgAppDB) {
 		for _, cs := range core.Sites(cl) {
@@ -99,7 +102,7 @@ func (f *appDBFacts) attribute(c *core.Ctx, h *ssa.Function, pi int, write bool,
 				continue
 			}
 			if k, ok := constString(cs.Common.Args[pi]); ok {
-				f.Accesses = append(f.Accesses, &dbAccess{Fn: cl, Site: cs, Write: write, Key: k})
+				f.Accesses = append(f.Accesses, &dbAccess{Fn: cl, Site: cs, Write: write, Key: k, Raw: raw})
 				found = true
 				continue
 			}
@@ -108,7 +111,7 @@ func (f *appDBFacts) attribute(c *core.Ctx, h *ssa.Function, pi int, write bool,
 				root = root.Parent()
 			}
 			if qi := paramIndexOf(root, cs.Common.Args[pi]); qi >= 0 && depth < 3 && root == cl {
-				if f.attribute(c, root, qi, write, depth+1) {
+				if f.attribute(c, root, qi, write, depth+1, raw) {
 					found = true
 				}
 			}
